@@ -17,6 +17,14 @@ beam slot are a seeded table row `row(tab, b, h, depth)` where
   it is recomputed from `hist[:idx]` (a stateless n-gram-like LM with unbounded order), so it is
   right only if the prefixes themselves follow the surviving paths.
 
+The model also polices its own protocol: it refuses to be stepped more often than the step limit
+(`SearchDidNotEnd`) or with `idx > hist.size(0)` (`ProtocolBreach`; the base class documents idx in
+[0, hist.size(0)]), so a search that would not end, or that hands the model a history shorter than
+the step index, fails the contract instead of hanging or silently reading garbage.
+
+Clauses: C04.adv.post (one step), C04.fwd.paths / .score / .order / .complete / .batch (the five
+sentences of the statement), C04.fwd.stop (documented meaning of finish_all_paths unset).
+
 The oracle never runs the LM module: it evaluates `row` on the reported token sequence directly
 (`chain`), and enumerates complete sequences by brute force. Nothing in the oracle is derived from
 `_decoding.py`.
@@ -547,10 +555,10 @@ def _grid_text(ctx):
 
 
 NSEEDS = {"quick": {"paths": 3, "score": 3, "order": 3, "complete": 6, "batch": 2, "stop": 3},
-          "thorough": {"paths": 8, "score": 8, "order": 8, "complete": 12, "batch": 6, "stop": 8}}
+          "thorough": {"paths": 8, "score": 8, "order": 8, "complete": 12, "batch": 4, "stop": 8}}
 NS = {"quick": {"paths": [None, 1, 2, 3], "batch": [1, 2, 3], "complete": [None, 2], "stop": [None, 2, 3]},
       "thorough": {"paths": [None, 1, 2, 3, 5], "batch": [1, 2, 3, 5], "complete": [None, 1, 3], "stop": [None, 2, 4]}}
-NRANDOM = {"paths": 30000, "score": 30000, "order": 30000, "complete": 4000, "batch": 12000, "stop": 15000}
+NRANDOM = {"paths": 30000, "score": 30000, "order": 30000, "complete": 4000, "batch": 8000, "stop": 15000}
 
 
 def _random_case(rng):
@@ -578,6 +586,8 @@ def cases_fwd(ctx, what):
         yield dict(WITNESS_IDX)
     if what in ("paths", "score", "order", "batch"):
         yield dict(WITNESS_WHERE)
+    if what == "complete":
+        yield dict(WITNESS_COMPLETE)
     for base in _grid(ctx):
         if what == "complete" and not applies_complete(base):
             continue
@@ -664,6 +674,7 @@ KNOWN_MATCH = {
 }
 # the smallest inputs on which the unchanged tree fails; enumerated in every tier
 WITNESS_IDX = {"V": 2, "T": 4, "W": 4, "eos": 0, "fin": True, "N": None, "seed": 11, "mode": "state", "sparse": True, "b0": 0}
+WITNESS_COMPLETE = dict(WITNESS_IDX, W=5)  # width = number of complete sequences of V=2, eos, max_iters=4
 WITNESS_WHERE = {"V": 2, "T": 4, "W": 3, "eos": 1, "fin": True, "N": 2, "seed": 25, "mode": "hist", "sparse": True, "b0": 0}
 
 
@@ -680,7 +691,7 @@ for _what in ("paths", "score", "order", "complete", "batch"):
                 "an LM reading hist[idx-1] raises IndexError) or, with another element already frozen, torch.where gets S+1 vs S rows",
         "class": "eos set, finish_all_paths=True, language model with zero-probability tokens such that for some batch element fewer sequences than the beam width have "
                  "non-zero probability and all of them end with eos before max_iters (unusable -inf slots are counted as unfinished paths)",
-        "witness": WITNESS_IDX if _what != "batch" else WITNESS_WHERE})
+        "witness": {"batch": WITNESS_WHERE, "complete": WITNESS_COMPLETE}.get(_what, WITNESS_IDX)})
     KNOWN_MATCH[_id] = _kf2
 
 FWD = ["_decoding.BeamSearch.forward", "_decoding.BeamSearch._to_width", "_decoding.beam_search_advance"]
@@ -737,6 +748,8 @@ def run_bounded(ctx):
             bound += ", restricted to eos set, finish_all_paths unset, max_iters >= 1 (compared with max_iters - 1)"
         bound += "; N in {%s}" % ",".join("unset" if n is None else str(n) for n in NS[tier][key])
         bound += "; table LMs: %d seeded score tables x {threaded-state, history-recomputing}, every other threaded-state table with zero-probability tokens" % NSEEDS[tier][what]
+        if what != "stop":
+            bound += "; plus the recorded witness(es) of KF-C04-2"
         if not ctx.quick:
             bound += ("; plus %d seeded random cases: " % NRANDOM[what]) + (
                 "V<=5, max_iters<=6, <=800 complete sequences, width = their number + 0..3" if what == "complete" else
